@@ -227,6 +227,10 @@ func genPrepTree(rng *Rng) (*TNode, []string) {
 		{"updown", "modules/../main.tf", "in-package via a directory and back"},
 		{"to_fifo", "pipe", "special file"},
 		{"modules/b/deep", "../../../../outside/dir/f", "out of the bundle from depth"},
+		{".git", "modules", "link to a directory, named like a directory the default rules exclude"},
+		{"aaa", "modules/a", "link to a directory, named like a directory rule"},
+		{"modules/.terraform", "a", "link to a directory, named like a directory the default rules exclude"},
+		{"docs/aaa", "../modules", "link to a directory, named like a directory rule"},
 	}
 	nl := 0
 	switch k := rng.Intn(10); {
@@ -250,7 +254,7 @@ func genPrepTree(rng *Rng) (*TNode, []string) {
 		shapes = append(shapes, "fifo")
 	}
 	if rng.Chance(55) {
-		rulesPool := []string{"logs/", "*.log", "secret", "secret/", "!secret/keep", "docs", "docs/", "modules/b", "**/x.tf", "ln_*", "out", "abs_*", "pipe", "/main.tf", "to_*", "chain2", "dangling", "loop", "reenter", "empty", "!.git/", "*/pipe", "via_ignored", "!logs/app.log", "modules/a/", "**/escape", "rootlink"}
+		rulesPool := []string{"logs/", "*.log", "secret", "secret/", "!secret/keep", "docs", "docs/", "modules/b", "**/x.tf", "ln_*", "out", "abs_*", "pipe", "/main.tf", "to_*", "chain2", "dangling", "loop", "reenter", "empty", "!.git/", "*/pipe", "via_ignored", "!logs/app.log", "modules/a/", "**/escape", "rootlink", "aaa/", "aaa/", "**/aaa/"}
 		n := 1 + rng.Intn(4)
 		var lines []string
 		for i := 0; i < n; i++ {
